@@ -642,11 +642,14 @@ func (p *parser) summarizeOperator(pipe, keyword Token) (*SummarizeOperator, err
 		By:      nullSpan(),
 	}
 
+	// A comma after the last column is only permitted directly before 'by'.
+	afterComma := false
 	for {
 		col, err := p.summarizeColumn()
 		if isNotFound(err) {
 			break
 		}
+		afterComma = false
 		if col != nil {
 			op.Cols = append(op.Cols, col)
 		}
@@ -662,11 +665,12 @@ func (p *parser) summarizeOperator(pipe, keyword Token) (*SummarizeOperator, err
 			p.prev()
 			break
 		}
+		afterComma = true
 	}
 
 	sep, ok := p.next()
 	if !ok {
-		if len(op.Cols) == 0 {
+		if len(op.Cols) == 0 || afterComma {
 			return op, &parseError{
 				source: p.source,
 				span:   sep.Span,
@@ -677,7 +681,7 @@ func (p *parser) summarizeOperator(pipe, keyword Token) (*SummarizeOperator, err
 	}
 	if sep.Kind != TokenBy {
 		p.prev()
-		if len(op.Cols) == 0 {
+		if len(op.Cols) == 0 || afterComma {
 			return op, &parseError{
 				source: p.source,
 				span:   sep.Span,
